@@ -566,6 +566,12 @@ func (e *engine) doOp(op string) {
 		e.stepProc(p)
 	case "crash":
 		e.crash(atoi(f[1]))
+	case "lose":
+		// the role scheduler revokes the lease of a parked process; the process notices at its next step
+		pu := strings.SplitN(f[1], "/", 2)
+		if p := e.findProc(atoi(pu[0]), pu[1]); p != nil && p.lease != nil && p.lease.live && p.parked != nil && p.parked.kind != "AW" {
+			s.loseLease(p.lease)
+		}
 	case "rw":
 		for _, p := range s.procs {
 			if p.unit == f[1] {
